@@ -9,7 +9,10 @@ Three independent renderers meet here:
     classify an opacity failure found by the differential, and it is tied to the Coq model
     through the observation row of (origin, pass) pairs.
 """
+import contextlib
+import io
 import json
+import random
 import re
 
 from . import common
@@ -719,6 +722,44 @@ class Gen:
                 "filters": c.get("filters", [])}
 
 
+def widen(case, r):
+    """configuration knobs and transparent operations around an already generated history (the renders, their order
+    and the registry they see are unchanged, except for the last item): silent=False (35%), the initial templates handed to the constructor
+    (25%) or created with a description (15%), the read-only accessors get_statistics()/list_templates() at 1..3
+    positions (40%: before the first operation, between a registration and a render, after a render that raised ...),
+    a registration WITHOUT a name (12%: create_template(t, "") / register_template(mRNA(t, name="")) raise ValueError
+    and must leave the registry alone) and register_template(mRNA(t, name=o), name="") (6%: registers under o)."""
+    c = dict(case)
+    if r.random() < 0.35:
+        c["silent"] = False
+    k = r.random()
+    if c["templates"] and k < 0.25:
+        c["init"] = "ctor" if k < 0.15 else "ctor-rot"
+    elif c["templates"] and k < 0.40:
+        c["describe"] = True
+    extra = []
+    if r.random() < 0.40:
+        extra += [{"op": "stats"} for _ in range(r.choice([1, 1, 2, 3]))]
+    if r.random() < 0.12:
+        extra.append({"op": "register", "name": "", "own": "", "how": r.choice(["create", "register", "register_as"]),
+                      "tpl": [["T", "anonymous "], ["V", "name"]]})
+    if r.random() < 0.06:
+        names = [n for n, _t in c["templates"]] or ["t1"]
+        extra.append({"op": "register", "name": "", "own": r.choice(names + ["t9"]), "how": "register_as",
+                      "tpl": [["T", "static "], ["O", "name"], ["P", "k", "none"]]})
+    if not extra:
+        return c
+    if "calls" in c:
+        calls = list(c["calls"])
+    else:
+        calls = [{"main": c.pop("main"), "ctx": c.pop("ctx")}]
+    for e in extra:
+        # never after the last operation (nothing later could show a difference), except a lone accessor call
+        calls.insert(r.randint(0, len(calls) - 1) if r.random() < 0.9 else len(calls), e)
+    c["calls"] = calls
+    return c
+
+
 # ---------------------------------------------------------------------------
 # driving the implementation
 # ---------------------------------------------------------------------------
@@ -816,6 +857,27 @@ def calls_of(case):
     return [{"main": case["main"], "ctx": case["ctx"]}]
 
 
+# Operations that are TRANSPARENT (no operation of the model: coq_case strips them and they contribute no
+# observation row, so the model's observations of the history WITHOUT them must equal the implementation's WITH them):
+#   {"op": "stats"}                               get_statistics() and list_templates(), the read-only accessors
+#   {"op": "register", ...} with an empty effective name
+#         create_template(tpl, "") / register_template(mRNA(tpl, name=""))            -> ValueError, nothing registered
+# (register_template(mRNA(tpl, name=o), name="") falls back to the mRNA's own name: `name or template.name`; it IS a
+#  registration, under o).
+# Optional configuration keys of a case (absent = as before): "silent": False (the constructor's default; stdout is
+# captured), "init": "ctor" | "ctor-rot" (the initial templates are handed to the constructor as templates={name: mRNA} instead of
+# create_template calls), "describe": True (create_template(..., description=...)).
+def reg_name(op):
+    """the name a register operation stores under ('' = the call raises ValueError('Template must have a name'))"""
+    if op["name"]:
+        return op["name"]
+    return op["own"] if op["how"] == "register_as" else ""
+
+
+def is_noop(op):
+    return op.get("op") == "stats" or (op.get("op") == "register" and reg_name(op) == "")
+
+
 def is_render(op):
     return op.get("op") in (None, "render_obj", "translate")
 
@@ -824,13 +886,14 @@ def registry_at(case, k):
     """the registered templates just before operation k, in dict order"""
     reg = [[n, t] for n, t in case["templates"]]
     for op in calls_of(case)[:k]:
-        if op.get("op") == "register":
+        if op.get("op") == "register" and not is_noop(op):
+            nm = reg_name(op)
             for e in reg:
-                if e[0] == op["name"]:
+                if e[0] == nm:
                     e[1] = op["tpl"]
                     break
             else:
-                reg.append([op["name"], op["tpl"]])
+                reg.append([nm, op["tpl"]])
     return reg
 
 
@@ -846,7 +909,8 @@ def sub_case(case, k):
         main = hit[0]
     else:
         main = op["main"]
-    return {"templates": reg, "strict": case["strict"], "phase": case.get("phase", "free"),
+    return {**{k: case[k] for k in ("silent", "init", "describe") if k in case},      # same configuration
+            "templates": reg, "strict": case["strict"], "phase": case.get("phase", "free"),
             "main": main, "ctx": op["ctx"], "filters": case_filters(case)}
 
 
@@ -873,19 +937,65 @@ def _guard(fn):
 
 def run_history(case, escd=False):
     """every operation of the history on ONE fresh Ribosome
-    -> per operation None (registration) | dict(text, warnings [(kind, name)], error None|(kind, name))"""
+    -> per operation None (registration) | dict(noop=...) (accessors, a registration without a name) |
+       dict(text, warnings [(kind, name)], error None|(kind, name))"""
+    if case.get("silent", True):
+        return _run_history(case, escd)
+    sink = io.StringIO()               # silent=False: register_template prints; nothing else may differ
+    with contextlib.redirect_stdout(sink):
+        out = _run_history(case, escd)
+    LAST_CONSOLE[0] = sink.getvalue()
+    return out
+
+
+LAST_CONSOLE = [""]
+
+
+def _run_history(case, escd=False):
     from operon_ai.organelles.ribosome import Ribosome, mRNA
     table = case_filters(case)
+    kw = {}
     if table:
-        r = Ribosome(filters=py_filters(table, escd), strict=case["strict"], silent=True)
-    else:
-        r = Ribosome(strict=case["strict"], silent=True)
-    for name, ast in case["templates"]:
-        r.create_template(pr(ast, escd), name)
+        kw["filters"] = py_filters(table, escd)
+    if case.get("init") in ("ctor", "ctor-rot") and case["templates"]:
+        # pre-registered templates: the documented `templates=` argument of the constructor; with "ctor-rot" every
+        # mRNA's own .name is the NEXT key of the dict (the registry is keyed by the dict key, never by mRNA.name)
+        keys = [name for name, _ast in case["templates"]]
+        own = {k: (keys[(i + 1) % len(keys)] if case["init"] == "ctor-rot" else k) for i, k in enumerate(keys)}
+        kw["templates"] = {name: mRNA(sequence=pr(ast, escd), name=own[name]) for name, ast in case["templates"]}
+    r = Ribosome(strict=case["strict"], silent=bool(case.get("silent", True)), **kw)
+    if "templates" not in kw:
+        for name, ast in case["templates"]:
+            if case.get("describe"):
+                r.create_template(pr(ast, escd), name, description="template " + name)
+            else:
+                r.create_template(pr(ast, escd), name)
     out = []
     for op in calls_of(case):
         kind = op.get("op")
-        if kind == "register":
+        if kind == "stats":
+            res = {"noop": "stats", "error": None}
+            try:
+                res["stats"] = r.get_statistics()
+                res["listing"] = r.list_templates()
+            except Exception as e:
+                res["error"] = type(e).__name__
+            out.append(res)
+        elif kind == "register" and is_noop(op):
+            # no name at all: ValueError("Template must have a name"), the registry stays as it is
+            seq = pr(op["tpl"], escd)
+            res = {"noop": "register-empty-name", "raised": None}
+            try:
+                if op["how"] == "create":
+                    r.create_template(seq, "")
+                elif op["how"] == "register":
+                    r.register_template(mRNA(sequence=seq, name=""))
+                else:
+                    r.register_template(mRNA(sequence=seq, name=""), name="")
+            except ValueError as e:
+                res["raised"] = str(e)
+            out.append(res)
+        elif kind == "register":
             seq = pr(op["tpl"], escd)
             if op["how"] == "create":
                 r.create_template(seq, op["name"])
@@ -1069,7 +1179,16 @@ class C12(Check):
     CASE_TYPE = "case"
     N_QUICK = 1200
     N_THOROUGH = 16000
-    RULE = ("The instance is constructed with the default filter table (60%) or with filters={1..4 identifier names, incl. names "
+    RULE = ("Around every generated history, drawn independently of it: silent=False (35%; the constructor's default - stdout "
+            "captured), the initial templates handed to the constructor as templates={name: mRNA} (25%; in 10% every mRNA's own "
+            ".name is another key of the dict) or created with a "
+            "description (15%), the read-only accessors get_statistics()/list_templates() at 1-3 positions (40%: before the "
+            "first operation, between a registration and a render, between a render that raised and the next one), a "
+            "registration without any name (12%: create_template(t, '') / register_template(mRNA(t, name='')) raise "
+            "ValueError and register nothing), register_template(mRNA(t, name=o), name='') (6%: registers under o). The "
+            "accessors and the refused registrations are NOT operations of the model: they are stripped from the Coq case and "
+            "add no observation, so the model's observations without them must equal the implementation's with them. "
+            "The instance is constructed with the default filter table (60%) or with filters={1..4 identifier names, incl. names "
             "of built-in filters, each bound to one of five representative callables: brace-sensitive, reversing, wrapping "
             "its argument in {{ }}, str, len}. HISTORIES of 1..6 operations on ONE Ribosome: synthesize, translate(name) (registered or not), translate(mRNA "
             "object not registered, own .name possibly a registered name, text possibly plain), create_template, "
@@ -1141,7 +1260,11 @@ class C12(Check):
                    "(no such usage in the repo's code, tests or examples)",
                    "between calls a Ribosome keeps templates, filters, flags and two statistics counters; translate() reads "
                    "only templates/filters/strict (modelled instance state: templates, strict, a call counter); the counters "
-                   "themselves are not observed",
+                   "themselves are not observed: get_statistics()/list_templates() are called between operations, but only "
+                   "their being without effect on every later render is checked (what they return is outside the property)",
+                   "the console output of a non-silent instance is captured and not judged; mRNA objects are built from their "
+                   "text (codons auto-detected; an explicit codons= list, which replaces the required-variable scan, is not "
+                   "exercised)",
                    "included templates form an acyclic graph (a cycle is RecursionError in the code, OutOfFuel in the model)"]
 
     # -- generation --------------------------------------------------------
@@ -1165,7 +1288,8 @@ class C12(Check):
                     continue
                 keep = c
                 break
-            out.append(keep)
+            # the widening is drawn from a generator of its own, so the renders are exactly those generated before
+            out.append(widen(keep, random.Random(f"C12:widen:{self.seed}:{n}:{i}")))
         self.extra_cov["generated_cases_dropped_for_output_size"] = getattr(self, "oversized", 0)
         return out
 
@@ -1240,6 +1364,30 @@ class C12(Check):
               templates=[["t1", [["E", " ", "ys", [["V", "m1"], ["O", "k"]]], ["P", "user_id", "length"]]]]),
             # the same templates on a default instance: the names are unknown filters
             W([["P", "p", "parens"], ["T", "|"], ["P", "s", "wrap"]], [["p", {"s": "{a}"}], ["s", {"s": "S"}]]),
+            # a non-silent instance whose templates come through the constructor; the read-only accessors before
+            # anything else, between a render that raises inside an include and its retry, and after a registration;
+            # registrations without a name (ValueError, nothing registered) and with name="" (falls back to mRNA.name)
+            {"templates": [["footer", [["T", "Contact: "], ["V", "email"]]],
+                           ["page", [["T", "== "], ["G", "footer"], ["T", " =="]]]],
+             "strict": True, "phase": "free", "silent": False, "init": "ctor-rot",
+             "calls": [{"op": "stats"},
+                       {"op": "translate", "name": "page", "ctx": []},
+                       {"op": "stats"},
+                       {"op": "register", "name": "", "own": "", "how": "create", "tpl": [["T", "anonymous"]]},
+                       {"op": "translate", "name": "page", "ctx": [["email", {"s": "ops@example.org"}]]},
+                       {"op": "register", "name": "", "own": "", "how": "register", "tpl": [["T", "anonymous"]]},
+                       {"op": "register", "name": "", "own": "", "how": "register_as", "tpl": [["T", "anonymous"]]},
+                       {"op": "register", "name": "", "own": "footer", "how": "register_as", "tpl": [["T", "(c) "], ["O", "email"]]},
+                       {"op": "stats"},
+                       {"op": "translate", "name": "page", "ctx": [["email", {"s": "{{>page}}"}]]},
+                       {"op": "register", "name": "note", "own": "note", "how": "create", "tpl": [["V", "x"], ["G", "footer"]]},
+                       {"op": "stats"},
+                       {"main": [["G", "note"], ["G", "anonymous"]], "ctx": [["x", {"i": 1}]]},
+                       {"op": "stats"}]},
+            {"templates": [["t1", [["T", "Hi "], ["V", "name"]]]], "strict": False, "phase": "free", "silent": False,
+             "describe": True,
+             "calls": [{"op": "stats"}, {"main": [["G", "t1"], ["V", "m1"]], "ctx": [["name", {"s": "{{m1}}"}]]},
+                       {"op": "stats"}, {"main": [["G", "t1"], ["V", "m1"]], "ctx": [["name", {"s": "{{m1}}"}]]}]},
         ]
         return base + super().corpus_cases()
 
@@ -1285,6 +1433,9 @@ class C12(Check):
         escs = run_history(case, True) if need_esc else [None] * len(ops)
         obs, traces = [], []
         for k, op in enumerate(ops):
+            if is_noop(op):                      # transparent: no observation row, no operation of the model
+                traces.append(reals[k])
+                continue
             if not is_render(op):
                 obs.append([7])
                 traces.append(None)
@@ -1299,7 +1450,7 @@ class C12(Check):
             o, t = self._run_call(sub, reals[k], escs[k])
             obs += o
             traces.append(t)
-        return obs, {"calls": traces}
+        return obs, {"calls": traces, "console": LAST_CONSOLE[0] if not case.get("silent", True) else None}
 
     def coq_case(self, case):
         T = clist([ctuple(coq_str(n), coq_tpl(t)) for n, t in case["templates"]])
@@ -1309,8 +1460,10 @@ class C12(Check):
         items = []
         for op in calls_of(case):
             kind = op.get("op")
+            if is_noop(op):
+                continue          # accessors / a registration that raises: stripped, the model must agree without them
             if kind == "register":
-                items.append(f"(OpRegister {coq_str(op['name'])} {coq_tpl(op['tpl'])})")
+                items.append(f"(OpRegister {coq_str(reg_name(op))} {coq_tpl(op['tpl'])})")
             elif kind == "translate":
                 items.append(f"(OpTranslate {coq_str(op['name'])} {cctx(op['ctx'])})")
             else:
@@ -1350,9 +1503,12 @@ class C12(Check):
                     before = []
                     for j in range(k):
                         tj = trace["calls"][j]
-                        if tj is None:
+                        if is_noop(ops[j]):
+                            before.append("get_statistics(); list_templates()" if ops[j]["op"] == "stats" else
+                                          f"registration without a name ({ops[j]['how']}) -> {tj.get('raised')!r}")
+                        elif tj is None:
                             o = ops[j]
-                            before.append(f"register {o['name']!r} ({o['how']}, mRNA.name={o['own']!r})")
+                            before.append(f"register {reg_name(o)!r} ({o['how']}, name={o['name']!r}, mRNA.name={o['own']!r})")
                         elif tj["real"]["error"]:
                             before.append("raised " + str(tj["real"]["error"]))
                         else:
@@ -1495,13 +1651,37 @@ class C12(Check):
         ops = calls_of(case)
         n = len(ops)
         ks = ["calls=%d" % n]
-        errs = [bool(t and t["real"]["error"]) for t in trace["calls"]]
+        errs = [bool(t and "real" in t and t["real"]["error"]) for t in trace["calls"]]
         if any(errs[:-1]):
             ks.append("history:render-after-exception")
+        if not case.get("silent", True):
+            ks.append("cfg:silent=False")
+            if "Registered template" in (trace.get("console") or ""):
+                ks.append("cfg:silent=False/printed")
+        if case.get("init") in ("ctor", "ctor-rot") and case["templates"]:
+            ks.append("cfg:templates-via-constructor" + ("/mRNA.name-is-another-key" if case["init"] == "ctor-rot" else ""))
+        if case.get("describe"):
+            ks.append("cfg:description")
         for k, op in enumerate(ops):
+            if is_noop(op):
+                t = trace["calls"][k] or {}
+                if op["op"] == "stats":
+                    ks.append("op:accessors" + ("/raised-" + t["error"] if t.get("error") else ""))
+                    if k > 0 and errs[k - 1]:
+                        ks.append("op:accessors/after-exception")
+                    if any(is_render(o) for o in ops[k + 1:]):
+                        ks.append("op:accessors/before-a-render")
+                    names = [n for n, _t in registry_at(case, k)]
+                    if t.get("stats") is not None and (t["stats"].get("template_names") != names or
+                                                        [e.get("name") for e in t.get("listing") or []] != names):
+                        ks.append("op:accessors/NAMES-DIFFER-FROM-REGISTRY")
+                else:
+                    ks.append("op:register-without-name/" + op["how"] + ("/ValueError" if t.get("raised") else "/ACCEPTED"))
+                continue
             if not is_render(op):
                 ks.append("op:register/" + op["how"] + ("/own-name-is-registered" if op["how"] == "register_as"
-                          and any(op["own"] == nm for nm, _ in registry_at(case, k)) else ""))
+                          and any(op["own"] == nm for nm, _ in registry_at(case, k)) else "")
+                          + ("/empty-name-falls-back-to-own" if not op["name"] else ""))
                 continue
             ks.append("op:" + (op.get("op") or "synthesize"))
             sub = sub_case(case, k)
@@ -1545,6 +1725,11 @@ class C12(Check):
 
     def shrink(self, case, pred):
         c = dict(case)
+        for key in ("silent", "init", "describe"):
+            if key in c:
+                d = {k: v for k, v in c.items() if k != key}
+                if pred(d):
+                    c = d
         if c.get("filters"):
             c["filters"] = common.shrink_list(c["filters"], lambda fs: pred({**c, "filters": fs}))
         if "calls" in c:
@@ -1553,7 +1738,8 @@ class C12(Check):
                 return c
             if c["calls"][0].get("op") is not None:
                 return c
-            c = {"templates": c["templates"], "strict": c["strict"], "phase": c.get("phase", "free"),
+            c = {**{k: c[k] for k in ("silent", "init", "describe") if k in c},
+                 "templates": c["templates"], "strict": c["strict"], "phase": c.get("phase", "free"),
                  "filters": c.get("filters", []), "main": c["calls"][0]["main"], "ctx": c["calls"][0]["ctx"]}
             if not pred(c):
                 return {**case, "calls": [{"main": c["main"], "ctx": c["ctx"]}]}
